@@ -1,5 +1,6 @@
 import GeoVerif.Corr.Proto
 import GeoVerif.Model.GridCodes
+import GeoVerif.Gen.OSGBC
 /-! Correspondence relations for C18 (Geohash, GARS, Georef, OSGB) -/
 namespace GeoVerif.Corr.C18
 open GeoVerif GeoVerif.Proto GeoVerif.Grid
@@ -42,6 +43,102 @@ def valVerdict (name : String) (mlat mlon : F64) (ilat ilon : F64) (exLat exLon 
   if okLat && okLon then .ok
   else .bad s!"{name}: impl=({showF ilat},{showF ilon}) model=({showF mlat},{showF mlon}) exact centre/corner=({exLat.1}/{exLat.2},{exLon.1}/{exLon.2})"
 
+/-- global index of the coded square of one coordinate: `h·10^p + (i1 mod 10^min(p,5))·10^(p−5) + (i2 mod 10^(p−5))` — what the digits say -/
+def osgbCoded (sc : OSGB.Sc) (p : Nat) : Int :=
+  let n1 := min p 5
+  sc.h * (10 : Int) ^ p + (sc.i1 % (10 : Int) ^ n1) * (10 : Int) ^ (p - 5) + sc.i2 % (10 : Int) ^ (p - 5)
+
+/-- exact global index `⌊v·10^(p−5)⌋` of a finite coordinate (exact dyadic arithmetic) -/
+def osgbExact (v : F64) (p : Nat) : Int :=
+  if p ≥ 5 then Dy.floor (Dy.mul v.toDy (Dy.ofInt ((10 : Int) ^ (p - 5))))
+  else
+    let den : Int := (10 : Int) ^ (5 - p)
+    let n := Dy.norm v.toDy
+    if n.e ≥ 0 then (Dy.shl n.m n.e) / den else n.m / (den * (2 : Int) ^ (-n.e).toNat)
+
+/-- was the in-tile offset `x − 10^5·h` computed without rounding (or clamped from a negative value)? -/
+def osgbOffsetExact (v : F64) (h : Int) : Bool :=
+  let ex := Dy.sub v.toDy (Dy.ofInt (100000 * h))
+  ex.m < 0 || Dy.eq (OSGB.offset v h).toDy ex
+
+def osgbString (gx gy : Int) (p : Nat) : List Char :=
+  let P : Int := (10 : Int) ^ p
+  OSGB.tileLetters (gx / P) (gy / P) ++ digitsW OSGB.digits 10 p (gx % P).toNat ++ digitsW OSGB.digits 10 p (gy % P).toNat
+
+/-- one reference against the model: `.ok` when it is the code of the exact containing square, a class label when it is the
+coded square of one of the proved deviation classes, a plain mismatch otherwise -/
+def osgbOne (x y : F64) (pn : Nat) (b : List UInt8) (c : List Char) : Verdict :=
+  let sx := OSGB.scaleCoord x pn
+  let sy := OSGB.scaleCoord y pn
+  let ex := osgbExact x pn
+  let ey := osgbExact y pn
+  let e := osgbString ex ey pn
+  if b == strOf e then .ok
+  else if b == strOf c then
+    let dx := osgbCoded sx pn - ex
+    let dy := osgbCoded sy pn - ey
+    -- exactness of the offset is judged at the tile index *before* the carry of the repaired code (finding F74)
+    let hx0 := OSGB.fl (x / F64.ofInt Gen.Grid.osgb_tile)
+    let hy0 := OSGB.fl (y / F64.ofInt Gen.Grid.osgb_tile)
+    if dx.natAbs > 1 || dy.natAbs > 1 then
+      .bad s!"OSGB::GridReference: the coded square {showStr c} is not a neighbour of the containing square {showStr e} (no proved deviation class allows this)"
+    else if (dx != 0 && !osgbOffsetExact x hx0) || (dy != 0 && !osgbOffsetExact y hy0) then
+      .bad s!"OSGB-offset-sliver OSGB::GridReference: tile -1, the addition x + 10^5 is rounded (by at most 2^-37 m) across a square edge: got {showStr c}, containing square is {showStr e}"
+    else
+      .bad s!"F2-sliver OSGB: position within half an ulp (of the scaled value) below a cell edge is coded into the next cell: got {showStr c}, containing cell is {showStr e}"
+  else .bad s!"OSGB::GridReference: impl={bytesToString b} model={showStr c} exact-cell={showStr e}"
+
+/-- field-wise prefix law between the references at precisions `p` and `p + 1` -/
+def osgbPrefixOK (b b2 : List UInt8) (p : Nat) : Bool :=
+  b.take (2 + p) == b2.take (2 + p) && b.drop (2 + p) == (b2.drop (2 + p + 1)).take p
+
+/-- `OSGB::GridReference(x, y, prec)`: exact containing square, else one of the proved deviation classes, else bad; the
+second result token (when present) is the reference at `prec + 1`: the prefix law is checked here, and a failure that is
+the consequence of a proved deviation class of either reference is reported under that class -/
+def osgbFwdVerdict (x y : F64) (p : Int) (res : List String) : Verdict :=
+  let coded := OSGB.gridReference x y p
+  match res with
+  | ["!E"] =>
+    (match coded with
+     | .error _ => .ok
+     | .ok s => .bad s!"OSGB::GridReference: implementation threw, model returns {showStr s}")
+  | r :: rest =>
+    (match parseS r, coded with
+     | some b, .ok c =>
+       if x.isNaN || y.isNaN then (if b == strOf c then .ok else .bad s!"OSGB::GridReference: impl={bytesToString b} model={showStr c}") else
+       let pn := p.toNat
+       let v1 := osgbOne x y pn b c
+       match rest with
+       | [r2] =>
+         (match parseS r2, OSGB.gridReference x y (p + 1) with
+          | some b2, .ok c2 =>
+            if osgbPrefixOK b b2 pn then v1 else
+            (match v1, osgbOne x y (pn + 1) b2 c2 with
+             | .bad m, _ => .bad m
+             | _, .bad m => .bad (m ++ s!" [prec {pn + 1}; seen as a failure of the prefix law against the reference at prec {pn}: {bytesToString b}]")
+             | _, _ => .bad s!"prefix-law OSGB: {bytesToString b} (prec {pn}) is not field-wise a prefix of {bytesToString b2}")
+          | _, _ => v1)
+       | _ => v1
+     | some b, .error _ => .bad s!"OSGB::GridReference: model rejects, impl returned {bytesToString b}"
+     | _, _ => .bad "OSGB::GridReference: parse")
+  | _ => .bad s!"OSGB::GridReference: unexpected result {res}"
+
+def resVerdict (name : String) (f : Int → F64) (args res : List String) : Verdict :=
+  match args, res with
+  | [a], [x] =>
+    (match parseI a, parseF x with
+     | some p, some r => if F64.same r (f p) then .ok else .bad s!"{name}({p}): impl={showF r} model={showF (f p)}"
+     | _, _ => .bad "parse")
+  | _, _ => .bad "parse"
+
+def precVerdict (name : String) (f : F64 → Int) (args res : List String) : Verdict :=
+  match args, res with
+  | [a], [x] =>
+    (match parseF a, parseI x with
+     | some r, some p => if p == f r then .ok else .bad s!"{name}({showF r}): impl={p} model={f r}"
+     | _, _ => .bad "parse")
+  | _, _ => .bad "parse"
+
 def handle (op : String) (args res : List String) : Option Verdict :=
   match op with
   | "geohash_fwd" => some <|
@@ -77,31 +174,7 @@ def handle (op : String) (args res : List String) : Option Verdict :=
     match args with
     | [a, b, c] =>
       match parseF a, parseF b, parseI c with
-      | some x, some y, some p =>
-        let coded := OSGB.gridReference x y p
-        -- exact containing cell: N = ⌊(x + 10^6)·10^(p-5)⌋ etc.
-        let exact : Except String (List Char) :=
-          match coded with
-          | .error e => .error e
-          | .ok s =>
-            if x.isNaN || y.isNaN then .ok s else
-            let pn := p.toNat
-            let cell (v : F64) (off : Int) : Int :=
-              let d := Dy.add v.toDy (Dy.ofInt off)
-              if pn ≥ 5 then Dy.floor (Dy.mul d (Dy.ofInt ((10 : Int) ^ (pn - 5))))
-              else
-                let den : Int := (10 : Int) ^ (5 - pn)
-                let n := Dy.norm d
-                if n.e ≥ 0 then (Dy.shl n.m n.e) / den else n.m / (den * (2 : Int) ^ (-n.e).toNat)
-            let nx := cell x 1000000
-            let ny := cell y 500000
-            let P : Int := (10 : Int) ^ pn
-            let xh := nx / P
-            let yh := ny / P
-            let g := Gen.Grid.osgb_tilegrid
-            .ok ([chr OSGB.letters ((g - (yh / g) - 1) * g + (xh / g)).toNat, chr OSGB.letters ((g - (yh % g) - 1) * g + (xh % g)).toNat]
-                 ++ digitsW OSGB.digits 10 pn (nx % P).toNat ++ digitsW OSGB.digits 10 pn (ny % P).toNat)
-        fwdVerdict "OSGB::GridReference" exact coded res
+      | some x, some y, some p => osgbFwdVerdict x y p res
       | _, _, _ => .bad "parse"
     | _ => .bad "parse"
   | "geohash_rev" => some <|
@@ -188,34 +261,88 @@ def handle (op : String) (args res : List String) : Option Verdict :=
         | .error _, ["!E"] => .ok
         | .error e, _ => .bad s!"OSGB::GridReference(string): model rejects ({e}), impl={res}"
         | .ok _, ["!E"] => .bad "OSGB::GridReference(string): impl threw on a string the model accepts"
-        | .ok .nan, [x, y, _] =>
-          (match parseF x, parseF y with
-           | some xx, some yy => if xx.isNaN && yy.isNaN then .ok else .bad "OSGB: INVALID must give NaN"
-           | _, _ => .bad "parse")
-        | .ok (.val mx my mp), [x, y, l] =>
+        | .ok .nan, [x, y, l] =>
           (match parseF x, parseF y, parseI l with
-           | some xx, some yy, some p =>
+           | some xx, some yy, some p => if xx.isNaN && yy.isNaN && p == -2 then .ok else .bad "OSGB: a string starting with IN must give NaN, NaN, prec = -2"
+           | _, _, _ => .bad "parse")
+        | .ok (.val mx my mp), [x, y, l] =>
+          (match parseF x, parseF y, parseI l, OSGB.decodeInt (natsOf s) with
+           | some xx, some yy, some p, .ok d =>
              if p != mp then .bad s!"OSGB: prec impl={p} model={mp}" else
-             -- exact value: digits are decimal fractions of the tile; tolerance 2^-44 relative to the 10^6-offset value
-             let grid := (natsOf s).filter (fun c => !OSGB.isSpace c)
-             let pn := mp.toNat
-             let dig (i : Nat) : Int := ((lookup OSGB.digits (grid.getD i 0)).map Int.ofNat).getD 0
-             let acc (off : Nat) : Int := (List.range pn).foldl (fun a i => 10 * a + dig (2 + off + i)) 0
-             let tileIdx (f : Nat → Int) : Int := f 0 * 5 + f 1
-             let li (k : Nat) : Int := ((lookup OSGB.letters (grid.getD k 0)).map Int.ofNat).getD 0
-             let xh := tileIdx (fun k => li k % 5) - 10
-             let yh := tileIdx (fun k => 5 - li k / 5 - 1) - 5
+             -- exact value of the square's corner / centre: (2·(h·10^p + X) + (1 if centre)) · 10^5 / (2·10^p)
+             let pn := d.prec
              let P : Int := (10 : Int) ^ pn
-             -- value·(2P)/10^5 = (2·(xh·P + digits) + (1 if centre)) ; so value = num / den with den = 2P, scaled by 10^5
-             let numx := (2 * (xh * P + acc 0) + (if cp then 1 else 0)) * 100000
-             let numy := (2 * (yh * P + acc pn) + (if cp then 1 else 0)) * 100000
+             let acc (l : List Nat) : Int := l.foldl (fun (a : Int) (k : Nat) => 10 * a + (k : Int)) 0
+             let numx := (2 * (d.xh * P + acc d.xd) + (if cp then 1 else 0)) * 100000
+             let numy := (2 * (d.yh * P + acc d.yd) + (if cp then 1 else 0)) * 100000
              let den := 2 * P
+             -- tolerance 2^-46 relative to the value shifted by the false origin (≥ 0): the accumulation of 6 rounded digits at 10^6 m
              let okx := F64.same mx xx || closeRat (xx + F64.ofInt 1000000) (numx + 1000000 * den) den 46
              let oky := F64.same my yy || closeRat (yy + F64.ofInt 500000) (numy + 500000 * den) den 46
-             if okx && oky then .ok else .bad s!"OSGB reverse: impl=({showF xx},{showF yy}) model=({showF mx},{showF my})"
-           | _, _, _ => .bad "parse")
+             -- up to 1 m (p ≤ 5) the arithmetic is exact (theorem `osgb_reverse_exact_le5`): require it of the implementation
+             let exactOK := pn > 5 || (closeRat xx numx den 2000 && closeRat yy numy den 2000)
+             if okx && oky && exactOK then .ok else .bad s!"OSGB reverse: impl=({showF xx},{showF yy}) model=({showF mx},{showF my}) exact=({numx}/{den},{numy}/{den})"
+           | _, _, _, _ => .bad "parse")
         | _, _ => .bad "OSGB: shape"
       | _, _ => .bad "parse"
+    | _ => .bad "parse"
+  | "geohash_res" => some <|
+    match args, res with
+    | [a], [x, y, d] =>
+      (match parseI a, parseF x, parseF y, parseI d with
+       | some len, some la, some lo, some dp =>
+         if F64.same la (Geohash.latRes len) && F64.same lo (Geohash.lonRes len) && dp == Geohash.decimalPrecision len then .ok
+         else .bad s!"Geohash resolutions for len={len}: impl=({showF la},{showF lo},{dp}) model=({showF (Geohash.latRes len)},{showF (Geohash.lonRes len)},{Geohash.decimalPrecision len})"
+       | _, _, _, _ => .bad "parse")
+    | _, _ => .bad "parse"
+  | "geohash_len" => some <|
+    match args, res with
+    | [a], [l] =>
+      (match parseF a, parseI l with
+       | some r, some L => if L == Geohash.lengthFor r then .ok else .bad s!"Geohash::GeohashLength({showF r}): impl={L} model={Geohash.lengthFor r}"
+       | _, _ => .bad "parse")
+    | _, _ => .bad "parse"
+  | "geohash_len2" => some <|
+    match args, res with
+    | [a, b], [l] =>
+      (match parseF a, parseF b, parseI l with
+       | some r1, some r2, some L => if L == Geohash.lengthFor2 r1 r2 then .ok else .bad s!"Geohash::GeohashLength({showF r1},{showF r2}): impl={L} model={Geohash.lengthFor2 r1 r2}"
+       | _, _, _ => .bad "parse")
+    | _, _ => .bad "parse"
+  | "gars_res" => some <| resVerdict "GARS::Resolution" GARS.resolution args res
+  | "georef_res" => some <| resVerdict "Georef::Resolution" Georef.resolution args res
+  | "gars_prec" => some <| precVerdict "GARS::Precision" GARS.precision args res
+  | "georef_prec" => some <| precVerdict "Georef::Precision" Georef.precision args res
+  | "osgb_consts" => some <|
+    match res.mapM parseF with
+    | some [a, f, k0, la0, lo0, fn, fe, no, y0, ta, tf, tk0] =>
+      let C := Gen.OSGBC.falseEasting
+      let chk : List (Bool × String) := [
+        (F64.same f (F64.ofInt Gen.OSGBC.f_num / F64.ofInt Gen.OSGBC.f_den), "Flattening = real(N)/real(D)"),
+        (F64.same la0 (F64.ofInt Gen.OSGBC.lat0) && F64.same lo0 (F64.ofInt Gen.OSGBC.lon0), "origin latitude / longitude"),
+        (F64.same fn (F64.ofInt Gen.OSGBC.falseNorthing) && F64.same fe (F64.ofInt C), "false northing / easting"),
+        (F64.same no (OSGB.northOffset fn y0), "computenorthoffset() = FalseNorthing() - y(OriginLatitude)"),
+        (F64.same ta a && F64.same tf f && F64.same tk0 k0, "OSGBTM() is built from EquatorialRadius(), Flattening(), CentralScale()"),
+        -- published decimals, decided exactly: 6377563.3955 < a < 6377563.3965 ; 0.9996012716 < k0 < 0.9996012718 (one unit of the last published digit)
+        (a.isFinite && Dy.lt (Dy.mul a.toDy (Dy.ofInt 10000)) (Dy.ofInt 63775633965) && Dy.lt (Dy.ofInt 63775633955) (Dy.mul a.toDy (Dy.ofInt 10000)), "a = 6377563.396 m"),
+        (k0.isFinite && Dy.lt (Dy.mul k0.toDy (Dy.ofInt 100000000000)) (Dy.ofInt 99960127180) && Dy.lt (Dy.ofInt 99960127160) (Dy.mul k0.toDy (Dy.ofInt 100000000000)), "F0 = 0.9996012717")]
+      match chk.filter (fun c => !c.1) with
+      | [] => .ok
+      | bad => .bad s!"OSGB constants: {bad.map (·.2)}"
+    | _ => .bad "parse"
+  | "osgb_tm_fwd" => some <|
+    match res.mapM parseF with
+    | some [x, y, g, k, tx, ty, tg, tk, no] =>
+      let m := OSGB.forwardWrap (F64.ofInt Gen.OSGBC.falseEasting) no tx ty
+      if F64.same x m.1 && F64.same y m.2 && F64.same g tg && F64.same k tk then .ok
+      else .bad s!"OSGB::Forward: (x, y, gamma, k) = ({showF x},{showF y},{showF g},{showF k}) but the projection gives ({showF tx},{showF ty},{showF tg},{showF tk}), north offset {showF no}"
+    | _ => .bad "parse"
+  | "osgb_tm_rev" => some <|
+    match res.mapM parseF with
+    | some [la, lo, g, k, tla, tlo, tg, tk] =>
+      -- the harness applies the inverse projection to (x − FalseEasting(), y − computenorthoffset()) itself: same bits expected
+      if F64.same la tla && F64.same lo tlo && F64.same g tg && F64.same k tk then .ok
+      else .bad s!"OSGB::Reverse: ({showF la},{showF lo},{showF g},{showF k}) differs from the inverse projection of the shifted point ({showF tla},{showF tlo},{showF tg},{showF tk})"
     | _ => .bad "parse"
   | _ => none
 
